@@ -181,7 +181,13 @@ def run_case(case, seed):
         Xs[k] = X
         states.append(digest(X))
         Xm = model_X(t)
-        tolX = O.budget(max(O.fro(Xm), 1e-300), dims=64 * k * cond) + (0 if r else 0)
+        # For rank-deficient A the documented recurrence itself amplifies rounding errors that lie in
+        # null(A) x null(A^H) by (1+gamma) per step (3 per step for the third-order map): (XA - I) E = -E there.
+        # A faithful implementation must show this growth, so it is part of the budget (full-rank inputs: no growth).
+        growth = 1.0
+        if r < min(m, n):
+            growth = (1.0 + case["gamma"]) ** k if case["solver"] == "damped" else 3.0 ** k
+        tolX = O.budget(max(O.fro(Xm), 1e-300), dims=64 * k * cond) * growth + 64 * O.U * growth * max(O.fro(Xm), 1.0 / max(nA, 1e-300)) * (1 if r else 0)
         dev = O.fro(X - Xm)
         if dev > tolX:
             fails.append(fail("iterate!=spectral_model", f"k={k}: ||X_k - V diag(t_k/s) U^H||_F = {dev:.3e} (budget {tolX:.1e}, ||X_k||={O.fro(Xm):.3e})", k=k, **tags))
@@ -207,7 +213,7 @@ def run_case(case, seed):
                 break
             for key, val in pr.items():
                 rep = resid[key][-1]
-                if abs(rep - val) > O.budget(max(nA, 1.0) * max(O.fro(X), 1.0) ** 2 * max(nA, 1.0), dims=64 * max(m, n)) + 1e-12 * val:
+                if abs(rep - val) > O.budget(max(nA, 1.0) * max(O.fro(X), 1.0) ** 2 * max(nA, 1.0), dims=64 * max(m, n)) * growth + 1e-12 * val:
                     fails.append(fail("residual_history_truthful", f"k={k}: reported {key} = {rep!r}, recomputed from the returned iterate {val!r}", k=k, hist=key, **tags))
             cur = {key: list(v) for key, v in resid.items()}
             if prev_res is not None and any(cur[key][:-1] != prev_res[key] for key in cur):
